@@ -79,6 +79,25 @@ func validFoldCommands(maxLen int) []string {
 	return res
 }
 
+// c15WordAlphabet: whole words as symbols - the namespace and command names of the UCAN specifications, a
+// segment that is a combining mark or starts with one, a zero-width joiner, a non-breaking space.
+var c15WordAlphabet = []string{"/", "ucan", "revoke", "x", "\u0301", "msg", "\u200d", "\u00a0"}
+
+func validWordCommands(maxLen int) []string {
+	if v, ok := validCmdMemo.Load(1000 + maxLen); ok {
+		return v.([]string)
+	}
+	var res []string
+	allStrings(c15WordAlphabet, maxLen, func(s string) bool {
+		if refmodel.CmdValid(s) {
+			res = append(res, s)
+		}
+		return true
+	})
+	validCmdMemo.Store(1000+maxLen, res)
+	return res
+}
+
 func validCommandsUncached(maxLen int) []string {
 	var res []string
 	allStrings(c15Alphabet, maxLen, func(s string) bool {
@@ -171,6 +190,7 @@ func C15() *engine.Check {
 		}
 	}
 	parse := mkParse("parse", "{/,a,b,A,é,É}", c15Alphabet, 6, 8)
+	parseWords := mkParse("parse-well-known-names-and-marks", "the words {/, ucan, revoke, x, msg} and the characters {U+0301 combining acute, U+200D zero-width joiner, U+00A0 no-break space} as symbols", c15WordAlphabet, 6, 7)
 	parseFold := mkParse("parse-case-fold-classes", "{/, s, ſ (long s), σ, ς (final sigma), ǆ, ǅ (title case), K (Kelvin sign)}", c15FoldAlphabet, 5, 6)
 
 	mkPairs := func(name, alphaDesc string, cmdsOf func(n int) []string, q, t int) *engine.Sub {
@@ -243,6 +263,7 @@ func C15() *engine.Check {
 		}
 	}
 	pairs := mkPairs("covers-pairs", "{/,a,b,A,é,É}", validCommands, 6, 7)
+	pairsWords := mkPairs("covers-pairs-well-known-names-and-marks", "the words {/, ucan, revoke, x, msg} and {U+0301, U+200D, U+00A0} as symbols (segments that are or start with a combining mark; the /ucan namespace)", validWordCommands, 4, 5)
 	pairsFold := mkPairs("covers-pairs-case-fold-classes", "{/, s, ſ, σ, ς, ǆ} (lower-case letters that are case-fold partners)", validFoldCommands, 4, 5)
 
 	triples := &engine.Sub{
@@ -417,7 +438,7 @@ func C15() *engine.Check {
 	return &engine.Check{
 		Property: "C15",
 		Level:    "model_checking",
-		Subs:     []*engine.Sub{parse, parseFold, pairs, pairsFold, triples, join, joinKept, c15ConcSub(), concRaceSub("C15")},
+		Subs:     []*engine.Sub{parse, parseFold, parseWords, pairs, pairsFold, pairsWords, triples, join, joinKept, c15ConcSub(), concRaceSub("C15")},
 		Assumptions: []string{
 			"alphabets {/,a,b,A,é,É} and {/,s,ſ,σ,ς,ǆ,ǅ,K}: valid UTF-8 only; behaviour on invalid UTF-8 is not decided by the property",
 			"reference model: strings.Split on '/' after the leading slash; unicode.ToLower per rune",
